@@ -141,5 +141,4 @@ def run(res):
 
 
 def replay(res, rp):
-    print("replay:", rp.get("input"))
-    return 0
+    return wl.replay(res, rp)
